@@ -792,6 +792,19 @@ pub fn run_c20(out: &mut Out, tier: &str, rng: &mut Rng) {
             Ok(mut rig) => {
                 let mut h = Hist { rig: &mut rig, ins: vec![], outs: vec![] };
                 h.setup();
+                // every other configuration: the units are ALREADY TALKING when the daemon comes up (their power-up address
+                // claims and first frames arrive before the first control cycle) - they are identified all the same
+                if rng.chance(1, 2) {
+                    for d in cfg.drivers.clone() {
+                        if rng.chance(2, 3) {
+                            h.frame(&raw_of(make_id(6, 60928, 0xFF, d.da), &[1, 2, 3, 4, 5, 6, 7, 8]));
+                        }
+                        if rng.chance(1, 2) {
+                            let raw = frame_from_unit(rng, &d);
+                            h.frame(&raw);
+                        }
+                    }
+                }
                 h.cycle();
                 // make every unit speak once so that its status (and canonical name) is published
                 for d in cfg.drivers.clone() {
